@@ -107,6 +107,17 @@ impl Lib {
     pub fn g_only_any_one(e: &Env, caller: Address) -> u32 {
         9
     }
+    // guarded entry points whose BODY authorizes a different account whose name ends with the guarded one's
+    #[only_role(caller, "minter")]
+    pub fn g_only_role_co(e: &Env, new_caller: Address, caller: Address) -> u32 {
+        new_caller.require_auth();
+        10
+    }
+    #[only_any_role(caller, ["minter", "burner"])]
+    pub fn g_only_any_co(e: &Env, sub_caller: Address, caller: Address) -> u32 {
+        sub_caller.require_auth();
+        11
+    }
 }
 
 #[contractimpl(contracttrait)]
@@ -702,6 +713,23 @@ impl Sim {
             }
         }
     }
+    /// lib only: `#[only_role(k, minter)] g_only_role_co(n, k)` / `#[only_any_role(k, [minter, burner])]
+    /// g_only_any_co(n, k)`: the body demands the authorization of a SECOND account `n != k`
+    fn only_role_co(&mut self, t: &mut Trace, any: bool, k: usize, n: usize, auth: &[usize]) -> bool {
+        let e = self.e.clone();
+        assert!(n != k && !matches!(self.kind, Kind::Nft));
+        if any {
+            // the line has no body flag: the co-signer always signs
+            let mut auth: StdVec<usize> = auth.to_vec();
+            if !auth.contains(&n) {
+                auth.push(n);
+            }
+            self.invoke(t, format!("ac only_any k={} rs=0,1 auth={}", k, join(&auth)), &[], "g_only_any_co", args(&e, [self.ad(n), self.ad(k)]), &auth)
+        } else {
+            let body = auth.contains(&n) as u8;
+            self.invoke(t, format!("ac only_role k={} r=0 body={} auth={}", k, body, join(auth)), &[], "g_only_role_co", args(&e, [self.ad(n), self.ad(k)]), auth)
+        }
+    }
     /// `#[has_role(k, r)]`: lib: g_has_role (burner, no body auth) / g_has_role_auth (minter, body auth) /
     /// ensure_role(_auth) for any role; nft: burn / burn_from (burner, body needs auth + ownership)
     fn has_role_guard(&mut self, t: &mut Trace, k: usize, r: usize, body_auth: bool, variant: u64, auth: &[usize]) -> bool {
@@ -932,6 +960,14 @@ fn directed(t: &mut Trace, thorough: bool) {
     s.only_any(t, 3, true, &[3]);
     s.grant(t, false, 3, 4, 2, &[2]);
     s.only_any(t, 3, true, &[3]);
+    // the body authorizes a co-signer; the guard still needs the role holder's own signature
+    s.only_role_co(t, false, 3, 4, &[4]);
+    s.only_role_co(t, false, 3, 4, &[3]);
+    s.only_role_co(t, false, 3, 4, &[3, 4]);
+    s.only_role_co(t, false, 4, 3, &[3, 4]);
+    s.only_role_co(t, true, 3, 4, &[4]);
+    s.only_role_co(t, true, 3, 4, &[3]);
+    s.only_role_co(t, true, 4, 3, &[3]);
     s.rt(t, "own", "offer", 4, 130, &[1]);
     s.rt(t, "own", "accept", 0, 0, &[4]);
     s.rt(t, "own", "guarded", 0, 0, &[1]);
@@ -1307,7 +1343,19 @@ fn random_sequence(t: &mut Trace, rng: &mut Rng, k: u64, seed: u64, len: u64, lo
                     let mem = s.members(role);
                     let caller = if !mem.is_empty() && rng.chance(60) { *rng.pick(&mem) } else { caller };
                     let auth = gen_auth(rng, Some(caller));
-                    s.only_role(t, caller, role, acct(rng), &auth);
+                    if lib && rng.chance(30) {
+                        let mem0 = s.members(0);
+                        let k = if !mem0.is_empty() && rng.chance(70) { *rng.pick(&mem0) } else { caller };
+                        let n = (k + 1 + rng.below(N as u64 - 1) as usize) % N;
+                        let auth = match rng.below(3) {
+                            0 => vec![n],
+                            1 => vec![k, n],
+                            _ => gen_auth(rng, Some(k)),
+                        };
+                        s.only_role_co(t, rng.chance(40), k, n, &auth);
+                    } else {
+                        s.only_role(t, caller, role, acct(rng), &auth);
+                    }
                 }
                 2 | 3 => {
                     if lib {
